@@ -66,6 +66,8 @@ def _matches(m: dict, ctx: Any, case: dict, v: dict) -> bool:
             return False
     if "viol" in m and not _any(m["viol"], [json.dumps(v, default=str)]):
         return False
+    if "traits_any" in m and not set(m["traits_any"]) & set(case.get("traits") or []):
+        return False
     if "traits_all" in m and not set(m["traits_all"]) <= set(case.get("traits") or []):
         return False
     if "result_undefined" in m and bool(v.get("result_undefined")) != bool(m["result_undefined"]):
